@@ -117,6 +117,12 @@ def search(rec, ctx):
             check(rec, {"src": " ".join(toks) + "\n", "stream": "sample-4", "toks": toks, "tail": "\n"})
         rec.notes["exhaustive_part"] = "all sequences of <=3 tokens over the 40-token vocabulary; length 4 sampled"
 
+    # ---- (a') every ordered pair / triple of adjacent string-literal kinds (str, bytes, f-strings, raw, u, triple-quoted) ---
+    from ..gen import lex
+
+    for s in ctx.shard(list(lex.string_concat_matrix())):
+        check(rec, {"src": "x = " + s + "\n", "stream": "string-concat-matrix"})
+
     # ---- (b) structured random sequences ------------------------------------------------------
     def seq(rnd):
         n = rnd.randint(5, 12)
